@@ -282,6 +282,17 @@ func (w *Health) runChecker(uniq string) {
 		}
 		return
 	}
+	// the host set is replaced while the checks run (a cluster update rebuilds every host object): the
+	// address stays, so its run of consecutive results goes on
+	if ch.Bool("work", "hostset_replaced") {
+		at := time.Duration(ch.Pick("work", "replace_at", int(total/time.Millisecond)))*time.Millisecond + 700*time.Microsecond
+		s.Faults["w:host_set_replaced_during_checks"]++
+		go func() {
+			time.Sleep(at)
+			again := cluster.NewSimpleHost(v2.Host{HostConfig: v2.HostConfig{Address: host.AddressString()}}, info)
+			hc.SetHealthCheckerHostSet(cluster.NewHostSet([]types.Host{again}))
+		}()
+	}
 	// let the scripted checks run: each takes at most timeout+interval(+jitter)
 	time.Sleep(total)
 	hc.Stop()
